@@ -24,6 +24,7 @@ RULE = (
     "Non-trivial = a request contains an unallocated run directly followed by an allocated cluster, or the image is v1."
     ' BATs that end exactly where the first data block begins; image files named by relative paths with a directory part or in decomposed Unicode form.'
 )
+RULE += ' Round 10: transient OSError then retry; content flavours; a failing open() of an unknown snapshot id between the reads of an earlier stream; the scratch path is reused by every case.'
 ASSUMPTIONS = [
     "allocated clusters never sit at file sector 0 (BAT entry 0 means unallocated in the format itself)",
     "v2 cluster data is cluster-aligned in the file (BAT entries are in cluster units)",
